@@ -7,7 +7,7 @@ from vlib import CheckError
 STAT_NAMES = ["not_transport_or_short", "unknown_index", "keypair_expired", "does_not_authenticate",
               "replayed_or_behind_window", "keepalive", "ipv4_length_or_header_refused",
               "ipv6_length_or_header_refused", "other_version_nibble", "source_not_allowed", "written",
-              "handshakes", "age_shifts", "unconfirmed_handshakes", "restarts", "accepted_under_offered_key"]
+              "handshakes", "age_shifts", "unconfirmed_handshakes", "restarts", "accepted_under_offered_key", "peers_removed"]
 
 
 def _plain(d):
@@ -133,7 +133,7 @@ class Prop:
                 c["_cut"] = True
                 yield c
             return
-        free = [i for i, e in enumerate(evs) if e["k"] not in ("hs", "hsu")]
+        free = [i for i, e in enumerate(evs) if e["k"] not in ("hs", "hsu", "remove")]
         # drop runs of non-handshake events (handshakes define the session serials)
         chunk = max(len(free) // 2, 1)
         seen = 0
@@ -180,11 +180,16 @@ class Prop:
         if pos < len(evs):
             for d in evs[pos].get("dgs") or []:
                 notes.add((d.get("note") or ("raw" if d.get("raw") else "dg")).split("/")[-1])
-                if (d.get("note") or "").startswith("pre-restart"):
-                    notes.add("pre-restart")
+                for tag in ("pre-restart", "removed-peer", "late-confirmed-key-expired"):
+                    if (d.get("note") or "").startswith(tag):
+                        notes.add(tag)
         if pos < len(evs) and evs[pos].get("junk") and any(bytes([10, 66, 66, 66]) in base64.b64decode(w) or b"\x66" * 8 in base64.b64decode(w)
                                                             for w in evs[pos].get("writes") or []):
             return "unauthenticated-bytes-on-tun-after-cookie-load"
+        if "removed-peer" in notes and pos < len(evs) and evs[pos].get("writes"):
+            return "session-of-removed-peer-accepted"
+        if "late-confirmed-key-expired" in notes and pos < len(evs) and evs[pos].get("writes"):
+            return "key-older-than-RejectAfterTime-accepted-after-late-confirmation"
         if any(n.startswith("pre-restart") for n in notes) and pos < len(evs) and evs[pos].get("writes"):
             return "key-from-before-restart-accepted"
         if any("after-idle-across-expiry" in n for n in notes) and pos < len(evs) and evs[pos].get("writes"):
